@@ -108,7 +108,7 @@ def handle_task(task, context, completed_task_queue):
 
     # skip task on external trigger if any
     skip_reason = context.is_task_to_be_skipped(task)
-    if skip_reason:
+    if skip_reason is not None:  # NB: the reason can be an empty string (an exception raised without message)
         skip_task(task, context, completed_task_queue, reason=skip_reason)
         return
 
